@@ -42,7 +42,7 @@ def check(rep, ctx):
     R_M = rep.rule("C18-magic", "a magic byte other than 2 raises", floor=1)
     R_C = rep.rule("C18-crc", "CRC-32C is verified over attributes..end of the batch before records are parsed", floor=3)
     R_R = rep.rule("C18-record", "record fields are read in the v2 order with zig-zag varint lengths and deltas", floor=6)
-    R_T = rep.rule("C18-truncation", "no unchecked raw read reaches a returned value", floor=4,
+    R_T = rep.rule("C18-truncation", "no unchecked raw read reaches a returned value", floor=2,
                    necessary_because="a batch cut inside the last header value, with a CRC that matches the prefix, is returned with a short value")
     R_G = rep.rule("C18-time", "record timestamps are decoded to the millisecond (T-gran)", floor=1,
                    necessary_because="base timestamp ...908 ms is read as ...:38.000; write_batch(read_batch(b)) != b")
@@ -103,8 +103,32 @@ def check(rep, ctx):
             else:
                 region = other[1]
                 r = [x for x in raws if x[2] == region]
-                if len(r) != 1:
-                    problems.append("the checksummed bytes are not one read of the batch buffer")
+                crc_end0 = next(pos2 + sz for (n, f), (l2, sz, w2, pos2) in zip(BATCH_SPEC, exact) if n == "crc")
+                attr_pos0 = next(pos2 for (n, f), (l2, sz, w2, pos2) in zip(BATCH_SPEC, exact) if n == "attributes")
+                sliced = None
+                if isinstance(region, tuple) and len(region) == 4 and region[0] == "slice" and isinstance(region[1], tuple) and region[1][:1] == ("contents",):
+                    # the other spelling: everything the batch buffer holds from the current position on -- the same bytes when the buffer
+                    # was filled by one read of batch_length bytes and nothing was written to it since
+                    uid = region[1][1]
+                    allocs = [e for e in p.effects if e[0] == "alloc" and getattr(e[1], "uid", None) == uid]
+                    filled = allocs[0][3] if len(allocs) == 1 else None
+                    bl_ = ("unpack", ">i", wire_of["batch_length"], 0)
+                    _t = lambda x_: x_ if isinstance(x_, tuple) else term_of(x_)
+                    src_reads = [e for e in p.effects if e[0] == "read" and filled is not None and _t(e[3]) == _t(filled)]
+                    writes = [e for e in p.effects if e[0] in ("write", "wvarint") and getattr(e[1], "uid", None) == uid]
+                    sliced = []
+                    if len(src_reads) != 1 or term_of(src_reads[0][2]) != bl_:
+                        sliced.append("the batch buffer is not filled by one read of batch_length bytes")
+                    if writes:
+                        sliced.append("the batch buffer is written to before its contents are checksummed")
+                    if region[2] != ("k", crc_end0) or region[3] != ("k", None):
+                        sliced.append(f"the checksummed slice is [{show_term(region[2])}:{show_term(region[3])}], expected from offset {crc_end0} to the end")
+                    if attr_pos0 != crc_end0:
+                        sliced.append(f"the attributes field is read at offset {attr_pos0}, the CRC field ends at {crc_end0}")
+                if sliced is not None:
+                    problems.extend(sliced)
+                elif len(r) != 1:
+                    problems.append("the checksummed bytes are neither one read of the batch buffer nor a slice of its contents")
                 else:
                     lab, size, w, pos = r[0]
                     crc_end = next(pos2 + sz for (n, f), (l2, sz, w2, pos2) in zip(BATCH_SPEC, exact) if n == "crc")
